@@ -96,3 +96,36 @@ pub fn c15_peel_sequence() {
     check!(r3 == 0 && r4 == 0 && x == 0, "then blank, set stays empty");
     cover!(r1 == 1u64 << 51 && r2 == 1, "ace of spades and deuce of clubs");
 }
+
+/// Bit-set parser over LONG token streams: 0..=64 tokens (more than a deck holds), every token an arbitrary
+/// member of {52 cards, blank}, repeats allowed: the result is exactly the set of real cards among ALL tokens —
+/// no cap on the number of tokens read, no early exit once the set is full.  Token-stream abstraction S6-long
+/// (one iterator, token k parses to LV[k]); natively the text is rendered and the real splitter / token parser run.
+#[cfg_attr(kani, kani::proof)]
+#[cfg_attr(kani, kani::unwind(67))]
+#[cfg_attr(kani, kani::stub(<core::str::SplitWhitespace<'_> as core::iter::Iterator>::next, crate::s6::stub_next_long))]
+#[cfg_attr(kani, kani::stub(<u32 as ckc_rs::PokerCard>::from_index, crate::s6::stub_from_index_long))]
+pub fn c15_from_index_long() {
+    let n = sym::u8() as usize;
+    sym::assume(n <= crate::s6::LMAX);
+    let mut v = [0u32; crate::s6::LMAX];
+    let mut k = 0;
+    while k < crate::s6::LMAX {
+        v[k] = any_card_or_blank();
+        k += 1;
+    }
+    let text = crate::s6::install_long(n, v);
+    let got = <BinaryCard as BC64>::from_index(text);
+    let mut want = 0u64;
+    let mut k = 0;
+    while k < crate::s6::LMAX {
+        if k < n {
+            want |= set_bit_of_word(v[k]);
+        }
+        k += 1;
+    }
+    check!(got == want, "bit-set parser = set of the real cards among all tokens of a long stream");
+    cover!(n == 64 && v[63] != 0 && v[63] != v[0], "64 tokens, the last one a real card");
+    cover!(n == 53, "one token more than a deck");
+    cover!(n == 0, "no tokens");
+}
